@@ -17,10 +17,13 @@ src = next((a.split('=', 1)[1] for a in sys.argv if a.startswith('--src=')), f'/
 dst = f'/verif/seeded/{name}'
 os.makedirs(dst, exist_ok=True)
 for f in ('patch.diff', 'demo.py'):
-    shutil.copy(os.path.join(src, f), os.path.join(dst, f))
+    if os.path.abspath(src) != os.path.abspath(dst):
+        shutil.copy(os.path.join(src, f), os.path.join(dst, f))
 agent_meta = {}
 try:
     agent_meta = json.load(open(os.path.join(src, 'meta.json')))
+    if 'agent_meta' in agent_meta:          # re-run from /verif/seeded/<name>: keep the sub-agent's own record
+        agent_meta = agent_meta['agent_meta']
 except Exception as e:
     agent_meta = {'error': f'agent meta.json unreadable: {e}'}
 patch = os.path.join(dst, 'patch.diff')
